@@ -307,6 +307,16 @@ func (s *segment) seal() {
 	s.Index.Shrink() // nolint: errcheck
 }
 
+// Unseal marks a segment as writable again. Truncate calls this on the segment
+// that becomes the active segment: that segment was sealed when it was rolled,
+// or when its replacement was closed to be renamed into place. Without this,
+// Seal would not wake the segment's waiters when it is rolled again.
+func (s *segment) Unseal() {
+	s.Lock()
+	s.sealed = false
+	s.Unlock()
+}
+
 func (s *segment) NextOffset() int64 {
 	s.RLock()
 	defer s.RUnlock()
@@ -435,8 +445,11 @@ func (s *segment) waitForData(waiter interface{}, pos int64) <-chan struct{} {
 		return wait
 	}
 	wait = make(chan struct{})
-	// Check if data has been written and/or the segment was filled.
-	if s.position > pos || s.position >= s.maxBytes {
+	// Check if data has been written and/or the segment was filled or sealed. A
+	// segment that was rolled because of its age is sealed without being full;
+	// nothing will be written to it anymore, so a reader at its end must look
+	// for the next segment instead of waiting here.
+	if s.position > pos || s.position >= s.maxBytes || s.sealed {
 		close(wait)
 	} else {
 		s.waiters[waiter] = wait
